@@ -74,7 +74,7 @@ func NewSpecDB() *SpecDB {
 
 var clauseKW = map[string]bool{"requires": true, "ensures": true, "modifies": true, "invariant": true,
 	"decreases": true, "check": true, "effects": true, "thread": true, "acquires": true, "releases": true,
-	"assumes": true, "opaque": true, "panics": true, "funcspec": true, "inline": true, "havoc": true, "trusted": true, "asserts": true, "unroll": true, "nilreceiver": true}
+	"assumes": true, "opaque": true, "panics": true, "funcspec": true, "inline": true, "havoc": true, "trusted": true, "asserts": true, "unroll": true, "nilreceiver": true, "ghostinc": true}
 var blockKW = map[string]bool{"abstract": true, "pure": true, "func": true, "loop": true, "assume": true, "lemma": true,
 	"guarded": true, "ghost": true, "global": true}
 
